@@ -42,6 +42,11 @@ func hostileHandler(sg *simpleGw, b gwBehaviour) func(g *world.GwPeer, p *snref.
 			normal(g, p, raw)
 			return
 		}
+		if i >= b.k+30 {
+			// bounded hostility: a peer that answers every answer forever (PINGREQ <-> PINGRESP)
+			// would keep the virtual instant from ever ending; 30 replies are enough.
+			return
+		}
 		switch b.kind {
 		case "silent":
 		case "disconnect":
